@@ -621,12 +621,25 @@ class Forms(Base):
         return "err" not in out and len(c["pts"]) > 0
 
 
+def scribble(res):
+    """overwrite in place whatever arrays a call returned (aliasing: a result that is an internal buffer of the object,
+    or shares memory with a later result, changes what the next call returns)"""
+    import numpy as np
+    for a in (res if isinstance(res, (tuple, list)) else [res]):
+        if isinstance(a, np.ndarray) and a.flags.writeable and a.size:
+            a[...] = -12345.678
+
+
 def run_op(w, o, keep=None):
+    return flat(run_op_raw(w, o, keep))
+
+
+def run_op_raw(w, o, keep=None):
     """one operation of a history; with keep (a dict) the argument arrays are created once per operation index and
     handed over again on a repetition, so that an implementation that scribbles on its inputs is seen"""
     import numpy as np
     if o["op"] == "inv":
-        return flat(w.InvertDistortion())
+        return w.InvertDistortion()
     if keep is not None and o.get("_k") in keep:
         a, b = keep[o["_k"]]
     else:
@@ -638,11 +651,11 @@ def run_op(w, o, keep=None):
         if keep is not None and "_k" in o:
             keep[o["_k"]] = (a, b)
     if o["op"] == "i2s":
-        return flat(w.image2sky(a, b, distort=o["distort"]))
+        return w.image2sky(a, b, distort=o["distort"])
     if o["op"] == "s2i":
         kw = {} if o.get("xtol") is None else {"xtol": o["xtol"]}
-        return flat(w.sky2image(a, b, distort=o["distort"], find=o["find"], **kw))
-    return flat(w.get_jacobian(a, b, distort=o["distort"]))
+        return w.sky2image(a, b, distort=o["distort"], find=o["find"], **kw)
+    return w.get_jacobian(a, b, distort=o["distort"])
 
 
 class History(Base):
@@ -670,7 +683,12 @@ class History(Base):
         for j in range(k):                      # the repetitions reuse the argument arrays of the first k operations
             ops[len(ops) - k + j]["_k"] = j
         keep = {}
-        hist = [run_op(w, o, keep) for o in ops]
+        hist = []
+        for o in ops:
+            res = run_op_raw(w, o, keep)
+            hist.append(flat(res))
+            scribble(res)           # the caller overwrites the RETURNED arrays: they must not be the object's buffers
+
         fresh = [run_op(mk(c["header"]), o) for o in c["ops"]]
         return {"history": hist, "fresh": fresh}
 
@@ -743,6 +761,7 @@ class Sequence(Base):
             else:
                 o = w.get_jacobian(a, b, distort=st["distort"], step=st.get("step", 1.0))
             outs.append(flat(o))
+            scribble(o)
         base = [None] * len(c["steps"])
         used = sorted(set(st["obj"] for st in c["steps"]))
         idxs = {i: [k for k, st in enumerate(c["steps"]) if st["obj"] == i] for i in used}
@@ -1132,6 +1151,19 @@ TRUSTED = [
 ]
 
 
+def restore_good_gen(ctx, why):
+    """copy the committed last good model tables (Gen.v.good, generated from a tree on which every tie lemma held) over
+    Gen.v; the next run on a translatable tree regenerates Gen.v from its source"""
+    import shutil
+    good = os.path.join(core.COQDIR, "theories", "C10", "Gen.v.good")
+    dst = os.path.join(core.COQDIR, "theories", "C10", "Gen.v")
+    if os.path.exists(good) and open(good).read() != (open(dst).read() if os.path.exists(dst) else None):
+        tmp = dst + ".tmp.%d" % os.getpid()
+        shutil.copyfile(good, tmp)
+        os.replace(tmp, dst)
+    ctx.notes.append("Gen.v restored from Gen.v.good (%s): correspondence runs against the last good model" % why)
+
+
 def run(ctx, replay=None):
     ctx.rule = ("headers: kinds {tan, tpv (full scamp PV sets), tan-pv (old scamp: -TAN with PV), tpv-sparse (PVi_1 and others "
                 "omitted), tpv-axis2 (PV2 only), sip, sip-noinv (no AP/BP_ORDER), sip-bonly} x CRVAL families {sphere, "
@@ -1154,14 +1186,21 @@ def run(ctx, replay=None):
         ctx.obligation("Gen.v regenerated from esutil/wcsutil.py", False, str(e))
         ctx.violation("translation of the module-level tables of wcsutil.py failed: %s" % e,
                       {"kind": "translation", "error": str(e),
-                       "no_longer_checks": "tie of C10/Gen.v (_scamp_map, _scamp_skip, _ap, DEFTOL) to esutil/wcsutil.py"},
+                       "no_longer_checks": "tie of C10/Gen.v (tables, formulas, control flow) to esutil/wcsutil.py"},
                       found_input=False)
+        # no masking: the tie failure is reported, and everything else runs against the last good model
+        restore_good_gen(ctx, "translation failed")
     # 2. theorems (re-proved against the regenerated tables)
     proofs_ok = core.proof_step(ctx, "C10", core.ALLOW_INTERVAL)
     if not proofs_ok:
-        # the certificates are stated against Spec only: keep looking for a failing input
+        # a tie lemma / table theorem does not hold for the regenerated Gen.v (reported by proof_step).  No masking: put
+        # the last good Gen.v back so that the verdict functions and certificate tactics build, and keep looking for a
+        # failing input with the last good model
+        restore_good_gen(ctx, "proof obligations do not build for the regenerated Gen.v")
         ok, log = core.coq_make(["theories/C10/Exec.vo"])
         if not ok:
+            ctx.violation("verdict functions of C10 do not build even with the last good Gen.v",
+                          {"kind": "proof-build", "log_tail": log[-2000:]}, found_input=False)
             return
     fw = Forward()
     sa = ScalarArray()
